@@ -75,7 +75,20 @@ def mkSchema (st : DState) (id : String) : Option SchemaCfg :=
 
 def hexO (b : Bytes) : String := Hex.encode b
 
-def showView (v : View) (ret : Ret) (pending : Bytes := []) : String :=
+def showTags (t : Tags) : String :=
+  let s := (if t.abc then "a" else "") ++ (if t.raw then "r" else "") ++ (if t.partial_ then "p" else "") ++
+    (if t.paging then "g" else "") ++ (if t.selectedBeforeEditing then "e" else "") ++ (if t.phony then "h" else "") ++
+    (if t.placeholder then "l" else "")
+  if s == "" then "0" else s
+
+/-- the segment list itself: `|composition input|:` then start-end-length-status-selected_index-tags per segment -/
+def showSegs (c : Comp) : String :=
+  let body := if c.segs.isEmpty then "-" else
+    String.intercalate "|" (c.segs.map (fun g =>
+      s!"{g.start}-{g.stop}-{g.length}-{g.status.rank}-{g.selIdx}-{showTags g.tags}"))
+  s!" segs={c.input.length}:{body}"
+
+def showViewOnly (v : View) (ret : Ret) (pending : Bytes := []) : String :=
   let s := s!"ret={if ret.ok then 1 else 0}"
   let s := if ret.text ≠ [] then s ++ s!" text={hexO ret.text}" else s
   let s := s ++ s!" input={hexO v.input} caret={v.caret} composing={if v.composing then 1 else 0} pending={hexO pending}"
@@ -88,6 +101,8 @@ def showView (v : View) (ret : Ret) (pending : Bytes := []) : String :=
     let cs := String.intercalate "|" (m.cands.map (fun c => s!"{hexO c.text}:{hexO c.comment}:{c.stop}"))
     s ++ s!" menu={m.pageSize},{m.pageNo},{if m.isLast then 1 else 0},{m.highlighted},{m.cands.length},[{cs}]"
   | none => s ++ " menu=~"
+
+def showView (v : View) (ret : Ret) (c : Ctx) : String := showViewOnly v ret c.commitBuf ++ showSegs c.comp
 
 def freshCtx (sc : SchemaCfg) (old : Option Ctx) : Ctx :=
   let keep := match old with
@@ -127,19 +142,19 @@ def sessStep (st : DState) (cs : Ctx × String) (d : DOp) : (Ctx × String) × S
     | none => (cs, "bad-op")
     | some sc =>
       let c1 := freshCtx sc (some cs.1)
-      ((c1, id), showView (view sc.env c1) ⟨true, []⟩ c1.commitBuf)
+      ((c1, id), showView (view sc.env c1) ⟨true, []⟩ c1)
   | .api op =>
     match mkSchema st cs.2 with
     | none => (cs, "bad-op")
     | some sc =>
       let r := apiStep sc.env cs.1 op
-      ((r.1, cs.2), showView (view sc.env r.1) r.2 r.1.commitBuf)
+      ((r.1, cs.2), showView (view sc.env r.1) r.2 r.1)
 
 def showCur (st : DState) (ret : Bool) : String :=
   match st.svc.lookup st.cur with
   | some (c, id) =>
     match mkSchema st id with
-    | some sc => showView (view sc.env c) ⟨ret, []⟩ c.commitBuf
+    | some sc => showView (view sc.env c) ⟨ret, []⟩ c
     | none => "bad-op"
   | none => deadLine (if ret then 1 else 0)
 
